@@ -26,7 +26,7 @@ def gen_model(rng, mode):
     typed bonds anywhere.  mode 'friendly': what file carriers are built for."""
     n_chains = rng.randint(1, 4 if mode == 'hostile' else 2)
     chains, residues, atoms = [], [], []
-    serial = rng.choice([1, 1, 5, 100]) if mode == 'hostile' else 1
+    serial = rng.choice([1, 1, 5, 100, 0]) if mode == 'hostile' else rng.choice([1, 1, 0, 3])
     resseq = rng.choice([1, 1, 0, -2, 10])
     for c in range(n_chains):
         chains.append({'id': rng.choice(CHAIN_IDS) if mode == 'hostile' else None})
@@ -251,7 +251,7 @@ def carrier_limits(carrier, model):
             ok = False
         if any(len(r['seg']) > 4 for r in model['residues']):
             ok = False
-        if any(a['elem'] == 'VS' or len(a['name']) > 4 or a['serial'] is None or not isinstance(a['serial'], int) or not (0 < a['serial'] < 100000) for a in model['atoms']):
+        if any(a['elem'] == 'VS' or len(a['name']) > 4 or a['serial'] is None or not isinstance(a['serial'], int) or not (0 <= a['serial'] < 100000) for a in model['atoms']):
             ok = False
         if len(set(a['serial'] for a in model['atoms'])) != len(model['atoms']):
             ok = False
